@@ -1,4 +1,97 @@
-//! built-in sanity cases (filled in later)
+//! `harness --selftest`: built-in sanity checks of the harness itself (independent of MiniVec defects).
+#![allow(static_mut_refs)]
+
+use crate::parent::{fork_run, postprocess, run_case_forked, Outcome};
+use std::alloc::{alloc, dealloc, realloc, Layout};
+
+const CLEAN: &str = "!case clean\n!cfg s16\n!mode MODE\nnew v\npush v 10\npush v 20\npop v\nclone v w\n\
+with_alignment a 2 64\npush a 1\nretain v mod2=0\ndrain v U U d\nnext d\n!end\n";
+const FAIL: &str = "!case fail\n!cfg w4\n!mode MODE\n!allocfail_at 1\nnew v\npush v 1\n!end\n";
+const INJ: &str = "!case inj\n!cfg w4\n!mode MODE\n!panic_at 1\nmacro_list v 3 1 2\ntruncate v 0\n!end\n";
+const WRONG: &str = "!case wrong\n!cfg w4\n!mode bogus\nnew v\n!end\n";
+
+fn run_text(text: &str, timeout: u64) -> String {
+  let text = text.replace("MODE", crate::my_mode());
+  let mut out = Vec::new();
+  for c in crate::parse_cases(&text) {
+    run_case_forked(&c, timeout, &mut out);
+  }
+  String::from_utf8_lossy(&out).into_owned()
+}
+
+fn raw_alloc_checks() {
+  unsafe {
+    crate::alloc::SCOPE = true;
+    let l8 = Layout::from_size_align(40, 8).unwrap();
+    let p = alloc(l8);
+    crate::tl!("T minimal8 {}", (p as usize % 8 == 0 && p as usize % 16 != 0) as u8);
+    let l64 = Layout::from_size_align(128, 64).unwrap();
+    let q = alloc(l64);
+    crate::tl!("T minimal64 {}", (q as usize % 64 == 0 && q as usize % 128 != 0) as u8);
+    *p.add(7) = 99;
+    let p2 = realloc(p, l8, 80);
+    crate::tl!("T moved {}", (p2 != p && *p2.add(7) == 99 && *p.add(7) == 0xDD) as u8);
+    dealloc(q, Layout::from_size_align(64, 64).unwrap()); // wrong size
+    dealloc(q, l64); // double free
+    *p2.add(80) = 1; // overrun into the canary
+    dealloc(p2.add(8), l8); // interior pointer
+    dealloc(p2, Layout::from_size_align(80, 8).unwrap());
+    let big = std::hint::black_box(alloc(Layout::from_size_align(std::hint::black_box((1 << 30) + 8), 8).unwrap()));
+    crate::tl!("T big-null {}", big.is_null() as u8);
+    crate::alloc::SCOPE = false;
+  }
+}
+
 pub fn run() -> i32 {
-  0
+  let mut bad = 0;
+  let mut check = |name: &str, ok: bool, ctx: &str| {
+    if !ok {
+      bad += 1;
+      eprintln!("selftest FAILED: {}\n{}", name, ctx);
+    }
+  };
+  let t = run_text(CLEAN, 5000);
+  check("clean: no oracle lines", !t.lines().any(|l| l.starts_with("O ") || l.starts_with("X ")), &t);
+  for want in [
+    "#case clean", "A 88 8", "= some 2:20", "C 1 3", "A 128 64", "S v 0 4 []", "= some 1:10",
+    "> drop d", "> drop v", "F 88 8", "req=64", "#end",
+  ] {
+    check(&format!("clean: has `{}`", want), t.lines().any(|l| l.contains(want)), &t);
+  }
+  let t = run_text(FAIL, 5000);
+  check("allocfail", t.contains("A 40 8\nZ\n= abort\nX signal 6 allocfail\n#end\n"), &t);
+  let t = run_text(INJ, 5000);
+  check("inject: execution order kept", t.contains("D 1\nD 2\nD 3\n= panic") || t.contains("D 3\nD 1\nD 2\n= panic"), &t);
+  let t = run_text(WRONG, 5000);
+  check("mode mismatch", t.contains("O mode-mismatch") && !t.contains("> new"), &t);
+
+  let mut out = Vec::new();
+  postprocess(b"> a\nD 5\nA 1 1\nD 3\n= ok\n> b\n~inj\nD 9\nD 2\n= panic\n", &mut out);
+  let s = String::from_utf8_lossy(&out).into_owned();
+  check("postprocess", s == "> a\nD 3\nA 1 1\nD 5\n= ok\n> b\nD 9\nD 2\n= panic\n", &s);
+
+  let (tr, _, oc) = fork_run(5000, raw_alloc_checks);
+  let t = String::from_utf8_lossy(&tr).into_owned();
+  check("alloc child exits normally", matches!(oc, Outcome::Exit(0)), &t);
+  for want in [
+    "T minimal8 1", "T minimal64 1", "T moved 1", "T big-null 1", "R 40 8 80", "Z",
+    "O alloc layout-mismatch dealloc", "O alloc unknown-or-double-free dealloc quoted=128/64",
+    "O alloc canary-after", "inside-blk=3 delta=8",
+  ] {
+    check(&format!("alloc: has `{}`", want), t.contains(want), &t);
+  }
+  let (_, _, oc) = fork_run(200, || loop {
+    std::hint::spin_loop();
+  });
+  check("timeout", matches!(oc, Outcome::Timeout), "");
+  let (_, _, oc) = fork_run(5000, || unsafe {
+    core::ptr::write_volatile(8 as *mut u8, 1);
+  });
+  check("signal", matches!(oc, Outcome::Signal(11)), "");
+  if bad == 0 {
+    println!("selftest ok ({})", crate::my_mode());
+    0
+  } else {
+    1
+  }
 }
